@@ -5,7 +5,7 @@ from mc import statex
 from mc.props import _cellprop, _masterprop
 from mc.worlds import mastercfg, mastermon
 
-BUDGET = {'quick': 240, 'thorough': 900}
+BUDGET = {'quick': 240, 'thorough': 2400}
 
 
 class Spec(_masterprop.MasterSpec):
@@ -22,14 +22,22 @@ class Spec(_masterprop.MasterSpec):
             return viol, {}
         menu = [e for e in base.enabled() if e[-1]]
         for e in menu:
+            extra = ()
             if e[0] == 'restart':
                 pre = ()
                 step = 'restart'
+            elif self.cfg.get('crash_in_handlers'):
+                # thorough: the master may also die inside the event handlers
+                # (process_events deleting event nodes, remove_app, reload /
+                # restore of a server), not only while publishing the cycle
+                pre = ()
+                step = 'event'
+                extra = (tuple(e),)
             else:
                 pre = (tuple(e[:-1]) + (False,),)
                 step = 'cycle'
             w = statex.build(self, tuple(hist) + pre)
-            ok, n = self._count(w, step)
+            ok, n = self._count(w, step, extra[0] if extra else None)
             if not ok:
                 stats['impl_exceptions'] += 1
                 continue
@@ -37,7 +45,7 @@ class Spec(_masterprop.MasterSpec):
             if n > 2:
                 stats['c10_steps_with_placement_writes'] += 1
             for k in range(n):
-                ev = ('crash', step, k, True)
+                ev = ('crash', step, k) + extra + (True,)
                 w2 = statex.build(self, tuple(hist) + pre)
                 mark = len(w2.viol)
                 before = collections.Counter(w2.stats)
@@ -55,15 +63,16 @@ class Spec(_masterprop.MasterSpec):
         return viol, {k: v for k, v in stats.items() if v}
 
     @staticmethod
-    def _count(w, step):
+    def _count(w, step, event=None):
         try:
-            return True, w.count_writes(step)
+            return True, w.count_writes(step, event)
         except Exception:  # pylint: disable=broad-except
             return False, 0
 
 
 def _m1(quick):
     cfg = mastercfg.m1()
+    cfg['crash_in_handlers'] = not quick
     cfg['monitors'] = [mastermon.mon_c09]
     cfg['allow_nocycle'] = True
     # non-initial start states (DESIGN 2.2): two placed instances, pressure
